@@ -636,7 +636,15 @@ pub fn run_check(prop: &str, tier: &str) -> i32 {
     let seed: i64 = std::env::var("VERIF_SEED").ok().and_then(|s| s.parse().ok()).unwrap_or(0);
     let kf = Known::load();
     let pool = Pool::new();
-    let (out, rule) = if prop == "C14" {
+    let (out, rule) = if matches!(prop, "C07" | "C08" | "C09" | "C10") {
+        let Some(cs) = crate::crash::spec_for(prop, tier) else { return 2 };
+        let rule = format!(
+            "{} bounded workloads per configuration, each executed once on the real engine with the I/O recorder on; every crash state ({}) is materialised from the recorded mutations, opened by the real recovery code in a worker and drained; states = crash states that satisfied the oracle, transitions = workloads + recoveries executed; distinct outcomes = distinct (topic, recovered length, acknowledged length) triples",
+            cs.workloads.len(),
+            if cs.power_loss { "every trace prefix x every subset of not-yet-synced mutations" } else { "every trace prefix x every subset of an in-flight io_uring batch" }
+        );
+        (crate::crash::run(&pool, &cs, &kf), rule)
+    } else if prop == "C14" {
         (
             crate::c14::run(&pool, tier),
             "every key over the 9-symbol alphabet {a - _ . / space NUL e-acute backslash} up to the length bound per constructor (see per_config), plus dot/dot-dot specials and a 300-byte key; one open + one append per key on the real engine; states = keys whose files all landed under data/<one component>/; distinct outcomes = distinct namespace directories created".to_string(),
